@@ -152,6 +152,12 @@ def run_case(case):
 def cases(draw):
     clean = draw(st.integers(0, 4)) > 0
     spec = draw(gen.io_textgrid(clean=clean, token_rate=2))
+    if draw(st.integers(0, 5)) == 0:
+        # a tier name is text like any other: it may hold a line break (the independent reader decodes it)
+        t = spec["tiers"][draw(st.integers(0, len(spec["tiers"]) - 1))]
+        new_name = t["name"] + draw(st.sampled_from(["\nx", "\n", " \n y", "\r\nz"])).replace("\r", "") + "q"
+        if new_name not in [x["name"] for x in spec["tiers"]]:
+            t["name"] = new_name
     case = {"tg": spec, "min_override": None, "max_override": None}
     r = draw(st.integers(0, 5)) if clean else 5
     if clean and draw(st.integers(0, 5)) == 0 and spec["maxT"] < 1e4:
